@@ -93,7 +93,12 @@ def numeric_verdict(nv):
     if "raise" in res:
         return "violation", {"raises": res["raise"], "message": res.get("msg")}
     try:
-        same = close(np.asarray(res["out"], dtype=np.float64), np.asarray(nv["expected"], dtype=np.float64), rtol=1e-5)
+        out = np.asarray(res["out"], dtype=np.float64)
+        same = close(out, np.asarray(nv["expected"], dtype=np.float64), rtol=1e-5)
+        for pz in res.get("perturbed", []):
+            if isinstance(pz, dict) or not close(np.asarray(pz, dtype=np.float64), out, rtol=1e-4):
+                # ill-conditioned input: the real output itself jumps under a 1e-10 perturbation - says nothing about the code
+                return "not-reproduced", {"unstable_under_perturbation": True, "out": res["out"], "perturbed": pz}
     except Exception as e:  # noqa: BLE001
         return "error", f"{type(e).__name__}: {e}"
     return ("not-reproduced" if same else "violation"), res["out"]
@@ -199,8 +204,8 @@ def check_property(prop, tier, seed):
                 continue
             if verdict == "not-reproduced":
                 o["result"] = "undecided"
-                o["reason"] = ("numeric counter-example of the refuted obligation is NOT reproduced by the real code (real output = spec value): "
-                               "the symbolic execution or the numeric interpretation of an operator is imprecise here; undecided")
+                o["reason"] = ("numeric counter-example of the refuted obligation is NOT reproduced by the real code (real output = spec value, or "
+                               "the real output is ill-conditioned at that input): undecided")
                 undecided.append(o)
                 continue
         # replay: first a failing case of the bounded arm with the same finding family, else a focused search
